@@ -5,6 +5,9 @@ from tools import partition as P
 from tools import vlib
 
 
+FINDING_SERDE_REFS = "serde/handoff-reference-tokens-lost"
+
+
 def ids(g):
     return [n["id"] for n in g["nodes"]]
 
@@ -49,7 +52,7 @@ class C20(vlib.Spec):
         return out
 
     def n_cases(self, tier):
-        return 260 if tier == "quick" else 3000
+        return 260 if tier == "quick" else 1500
 
     def to_coq(self, case, res):
         if not isinstance(res, dict) or "before" not in res:
@@ -86,9 +89,13 @@ class C20(vlib.Spec):
             pieces.append("c20_rewrite %s %s %s" % (G(orig), vlib.g_list("%d" % x for x in new), G(ae)))
             pieces.append("c20_roundtrip %s %s" % (G(orig), G(rt["loaded"])))
             pieces.append("c20_roundtrip %s %s" % (G(orig), G(rt["bare"])))
-            flags = ["json_same", "json_same_after_insts", "code_same", "mermaid_same", "surface_same", "code_some"]
+            flags = ["json_same", "json_same_after_insts", "mermaid_same", "surface_same", "code_some"]
             if not all(rt.get(f) for f in flags) or rt.get("insts_diags"):
                 py_bits |= 2
+            if not rt.get("code_same_noloc"):
+                # known class only when some operator carries `#var` references (bit 3 marks it)
+                has_refs = any(n["refs"] for n in orig["nodes"])
+                py_bits |= (2 | 8) if has_refs and not (py_bits & 2) else 2
             # operator text / varnames survive the round trip
             for a, b in zip(orig["nodes"], rt["loaded"]["nodes"]):
                 if (a["tokens"], a["pretty"], a["varname"], a["has_inst"], a["color"]) != \
@@ -96,10 +103,15 @@ class C20(vlib.Spec):
                     py_bits |= 2
         elif isinstance(rt, dict) and "load_err" in rt:
             py_bits |= 2
-        term = "%d" % py_bits
+        term = "0"
         for pce in pieces:
             term = "N.lor (%s) (%s)" % (pce, term)
-        return term
+        # bit 4: some Coq-side comparison failed (distinguishes it from plug-in side flags)
+        return "(let v := %s in N.lor (N.lor v (if N.eqb v 0 then 0 else 16)) %d)" % (term, py_bits)
+
+    def finding_key(self, case, res):
+        v = self.verdicts.get(vlib.case_hash(case))
+        return FINDING_SERDE_REFS if v == (2 | 8) else None
 
     def shrink(self, case):
         out = []
@@ -123,7 +135,7 @@ class C20(vlib.Spec):
             d["module_boundaries"] = len(res["mb_log"])
             d["removed_by_eliminate"] = sorted(set(ids(res["before_elim"])) - set(ids(res["after_elim"])))
             rt = res["roundtrip"]
-            d["roundtrip"] = {k: rt.get(k) for k in ("json_same", "code_same", "json_len", "json_keys", "part_err", "panic")} \
+            d["roundtrip"] = {k: rt.get(k) for k in ("json_same", "code_same", "code_same_noloc", "json_len", "json_keys", "part_err", "panic")} \
                 if isinstance(rt, dict) else rt
         return d
 
@@ -168,4 +180,13 @@ def main(ctx):
             "operator_tag, node_varnames (compared as text by the plug-in), root_loops/loop_children (dumped, compared via JSON equality only).")
         orig_finish(ctx_, level, coverage, assumptions, extra)
     vlib.finish = finish
+    spec.verdicts = {}
+    orig_evaluate = vlib.evaluate
+
+    def evaluate(ctx_, spec_, binary, cases):
+        results, verd = orig_evaluate(ctx_, spec_, binary, cases)
+        for c, v in zip(cases, verd):
+            spec_.verdicts[vlib.case_hash(c)] = v
+        return results, verd
+    vlib.evaluate = evaluate
     vlib.standard_check(ctx, spec)
